@@ -145,7 +145,7 @@ Alloc(s, k, req) ==
 \* client's parameter request list first: prl "rm" lists the router before the mask)
 Reply(t, m, n, yi, xid, prl) ==
   [t |-> t, mac |-> m, xid |-> xid, yi |-> yi, mask |-> n, router |-> Gw(n), dns |-> Dns(n),
-   sid |-> HostA, lt |-> TRUE, mbr |-> prl # "rm"]
+   sid |-> HostA, lt |-> TRUE, mbr |-> prl \notin {"rm", "r"}]    \* prl classes: none, mr, rm, m (mask only), r (router only), n (neither)
 Nak(m, xid, sid) ==
   [t |-> "nak", mac |-> m, xid |-> xid, yi |-> NoA, mask |-> 0, router |-> NoA, dns |-> "none",
    sid |-> sid, lt |-> FALSE, mbr |-> TRUE]
@@ -309,8 +309,8 @@ Cause(g, e, r, A, O, h0) ==
       lease0 == a # NoA /\ (AIp(A, k) = a \/ O[k].last = a)
       conflict == g \in {"C11_NoDoubleAck", "C11_NoOfferOfAcked", "C11_NotOthersTracked"}
   IN IF g \in {"C12_Router", "C12_DNS", "C12_Mask", "C12_ServerId", "C12_LeaseTime", "C12_Echo"}
-     THEN (IF g = "C12_Mask" /\ r.mask \in {1, 2} /\ ~r.mbr /\ e.prl = "rm"
-           THEN "KF_PRLRouterFirst"       \* the client's parameter request list puts the router before the mask
+     THEN (IF g = "C12_Mask" /\ r.mask \in {1, 2} /\ ~r.mbr /\ e.prl \in {"rm", "r"}
+           THEN "KF_PRLRouterFirst"       \* the client's parameter request list itself puts the router first (3 before 1, or 3 without 1)
            ELSE "none")
      ELSE IF "shadow" \notin Fixed /\ g \in {"C11_NoDoubleAck", "C11_NoOfferOfAcked"} /\ a # NoA
              /\ \E j \in CIDs \ Holders(e, r, A) : \E b \in O[j].ever : b.ip = a
@@ -501,6 +501,19 @@ ReloadR == /\ acked' = [j \in CIDs |-> IF acked[j] # Nil /\ (~InNet(1, acked[j].
                                                      !.lx = (lease'[j] # Nil)]]
            /\ verdict' = RestartVerdict(lease')
 Reload == ReloadM /\ ReloadR
+
+\* hot swap in two steps: Spawn builds the replacement handler on the same lease file and session while the old handler
+\* is still open (mechanism = Reload); CloseOld closes the replaced handler later -- possibly after the replacement
+\* acknowledged leases. Handler.Close() does not touch the lease file: after it the file still holds every
+\* acknowledged binding (C18_AckDurable).
+SpawnM == ReloadM
+SpawnR == ReloadR
+Spawn  == SpawnM /\ SpawnR
+DurableAll(F, A) == \A j \in CIDs : (A[j] # Nil /\ InNet(1, A[j].ip)) => \E f \in F : f.k = j /\ f.mac = A[j].mac /\ f.ip = A[j].ip
+CloseOldM == Quiet /\ UNCHANGED <<lease, next, file, hosts, ment>>
+CloseOldR == /\ acked' = acked /\ obs' = obs
+             /\ verdict' = IF DurableAll(file', acked) THEN {} ELSE {[g |-> "C18_AckDurable", c |-> "none"]}
+CloseOld == CloseOldM /\ CloseOldR
 
 \* process restart with a CHANGED configuration (another DNS server) on the surviving lease file: dhcp4.go New()
 \* resets the lease table when the configuration changed; from then on replies carry the new configuration
